@@ -187,14 +187,19 @@ func TestSeveralSubscribersPerPeer(t *testing.T) {
 		nPeers := rapid.IntRange(1, 2).Draw(t, "peers")
 		nFeat := rapid.IntRange(2, 3).Draw(t, "subscribedFeaturesPerPeer")
 		periods := rapid.IntRange(3, 6).Draw(t, "periods")
+		// a long-lived connection: it has carried this many notifications of another feature before
+		prior := rapid.SampledFrom([]int{0, 0, 40, 99, 100, 130}).Draw(t, "notificationsCarriedBefore")
 		const timeout = 100 * time.Millisecond
 		base := runtimeGoroutines()
 		w := world.New()
 		ent := w.AddLocalEntity([]uint{1}, model.EntityTypeTypeCEM, timeout)
+		meas := w.AddLocalFeature(ent, world.FeatSpec{Type: model.FeatureTypeTypeMeasurement, Role: model.RoleTypeServer,
+			Funcs: []world.FuncSpec{{Fn: model.FunctionTypeMeasurementListData, Read: true}}})
 		var tree []world.EntSpec
 		for e := 1; e <= nFeat; e++ {
 			tree = append(tree, world.EntSpec{Addr: []uint{uint(e)}, Type: model.EntityTypeTypeCEM, Feats: []world.FeatSpec{
-				{ID: 1, Type: model.FeatureTypeTypeDeviceDiagnosis, Role: model.RoleTypeClient}}})
+				{ID: 1, Type: model.FeatureTypeTypeDeviceDiagnosis, Role: model.RoleTypeClient},
+				{ID: 2, Type: model.FeatureTypeTypeMeasurement, Role: model.RoleTypeClient}}})
 		}
 		type key struct {
 			peer int
@@ -239,11 +244,52 @@ func TestSeveralSubscribersPerPeer(t *testing.T) {
 				}
 			}
 		}
+		if prior > 0 {
+			p := peers[0]
+			if !p.CallOK(world.SubscribeCall(p.FA([]uint{1}, 2), meas.Address(), model.FeatureTypeTypeMeasurement)) {
+				t.Fatalf("harness: measurement subscription not granted")
+			}
+			donePrior := make(chan struct{})
+			go func() {
+				defer close(donePrior)
+				for i := 0; i < prior; i++ {
+					id := model.MeasurementIdType(i)
+					meas.SetData(model.FunctionTypeMeasurementListData, &model.MeasurementListDataType{MeasurementData: []model.MeasurementDataType{{MeasurementId: &id}}})
+				}
+			}()
+			if where, detail, inconclusive := world.AwaitOrDiagnose(donePrior, 20*time.Second, 5*time.Minute, 1); where != "" {
+				world.Fail(t, "C16/deadlock/notifications-on-long-lived-connection/"+where, "%d notifications of another feature on the subscriber's connection: the stack did %s", prior, detail)
+			} else if inconclusive {
+				t.Fatalf("inconclusive: %s", detail)
+			}
+		}
 		mu.Lock()
 		got = map[key][]uint64{} // what was notified while the subscriptions were being made is not judged
 		mu.Unlock()
+		// a ticker of the harness with the heartbeat's period tells whether the machine lets timers tick
+		var control atomic.Int32
+		stopControl := make(chan struct{})
+		go func() {
+			tk := time.NewTicker(timeout)
+			defer tk.Stop()
+			for {
+				select {
+				case <-stopControl:
+					return
+				case <-tk.C:
+					control.Add(1)
+				}
+			}
+		}()
 		time.Sleep(time.Duration(periods)*timeout + timeout/2)
-		hm.StopHeartbeat()
+		close(stopControl)
+		stopped := make(chan struct{})
+		go func() { defer close(stopped); hm.StopHeartbeat() }()
+		if where, detail, inconclusive := world.AwaitOrDiagnose(stopped, 20*time.Second, 5*time.Minute, 1); where != "" {
+			world.Fail(t, "C16/deadlock/stop/"+where, "StopHeartbeat: the stack did %s", detail)
+		} else if inconclusive {
+			t.Fatalf("inconclusive: %s", detail)
+		}
 		time.Sleep(timeout + 20*time.Millisecond) // a refresh in flight
 		mu.Lock()
 		defer mu.Unlock()
@@ -252,6 +298,9 @@ func TestSeveralSubscribersPerPeer(t *testing.T) {
 			for _, c := range l {
 				union[c] = true
 			}
+		}
+		if len(union) < periods-2 && int(control.Load()) >= periods-1 {
+			world.Fail(t, "C16/period/no-refresh-while-running", "the heartbeat ran for %d periods of %v (a ticker of the harness ticked %d times meanwhile), the subscribers were notified of %d refreshes; the connection of peer 1 had carried %d notifications of another feature before", periods, timeout, control.Load(), len(union), prior)
 		}
 		if len(union) == 0 {
 			world.Record(world.Hash("several-subscribers-discarded", nPeers, nFeat, periods), false, "several-subscribers/discarded-no-refresh")
@@ -271,7 +320,7 @@ func TestSeveralSubscribersPerPeer(t *testing.T) {
 				}
 			}
 		}
-		world.Record(world.Hash("several-subscribers", nPeers, nFeat, periods), true, fmt.Sprintf("several-subscribers/features-per-peer-%d", nFeat))
+		world.Record(world.Hash("several-subscribers", nPeers, nFeat, periods, prior), true, fmt.Sprintf("several-subscribers/features-per-peer-%d", nFeat), fmt.Sprintf("several-subscribers/connection-carried-%d-notifications-before", prior))
 		if world.WantSample() {
 			world.Sample(map[string]any{"check": "several-subscribers-per-peer", "peers": nPeers, "subscribed_features_per_peer": nFeat, "refreshes_seen": len(union)})
 		}
